@@ -31,7 +31,7 @@ COMPONENTS = {
     "stub_or_harness": ["history generator", "WriterModel reference model"],
 }
 PROBES = [
-    "same_string_in_both_modes", "refusal_on_nonempty_buffer", "refusal_right_after_mode_toggle", "perfect_fit_padded",
+    "same_string_in_both_modes", "second_writer_interleaved", "refusal_on_nonempty_buffer", "refusal_right_after_mode_toggle", "perfect_fit_padded",
     "y_diaeresis_sanitized", "y_diaeresis_unsanitized", "to_bytearray_is_copy", "refusal_far_beyond_limit",
     "refusal_string_one_too_long", "refusal_string_one_too_short",
 ]
@@ -52,7 +52,9 @@ def generate(streams, tier):
     pool = StringPool(vr)
     for _ in range(n):
         r = rng.random()
-        if r < p_toggle:
+        if rng.random() < 0.04:
+            ops.append(["switch_writer"])
+        elif r < p_toggle:
             ops.append(["set_mode", rng.random() < 0.5])
         elif r < p_toggle + p_obs:
             ops.append(["observe"])
@@ -92,8 +94,16 @@ def execute(plan, env):
         res.violation = {"kind": kind, "signature": f"C09|{kind}|{op}|sanitize={m.sanitize}",
                          "detail": f"step {step}: {detail}", "step": step}
 
+    writers = [(w, m), (EoWriter(), WriterModel())]
     for step, op in enumerate(plan["ops"]):
         name, args = op[0], op[1:]
+        if name == "switch_writer":
+            # a second writer of the same process takes over (state must be per writer)
+            writers.reverse()
+            w, m = writers[0]
+            res.count("probe.second_writer_interleaved")
+            tr.ev(step, name)
+            continue
         if name == "set_mode":
             w.string_sanitization_mode = bool(args[0])
             m.sanitize = bool(args[0])
